@@ -9,8 +9,10 @@ namespace SpecVerif.Mpx.Client
 
 /-- `uint16(1<<attempt - 2)` on a 64-bit `int`: shifts of 64 or more give 0, the subtraction wraps,
 the conversion keeps the low 16 bits -/
+def shl1 (attempt : Nat) : Nat := if attempt < 64 then 2 ^ attempt else 0
+
 def multi (attempt : Nat) : Nat :=
-  ((2 ^ attempt % 2 ^ 64 + 2 ^ 64 - 2) % 2 ^ 64) % 65536
+  ((shl1 attempt + 2 ^ 64 - 2) % 2 ^ 64) % 65536
 
 def minRetryNs : Nat := 25000000
 def maxRetryNs : Nat := 1000000000
@@ -75,15 +77,15 @@ def step (s : State) : Action → Option State
     if s.conns = 0 then none else
     let s1 := { s with conns := s.conns - 1 }
     if s1.conns > 0 then some s1 else
+    if s.closed then some s1 else
     let s2 := { s1 with connected := false, disconnected := true }
     some (if s.auto then startDial s2 else s2)
   | .lateConnClosed =>
-    -- conns.remove is a no-op; the list is empty after Close
-    if s.closed ∧ s.conns = 0 then
-      some (if s.auto then startDial s else s)
-    else none
+    -- conns.remove is a no-op; the list is empty after Close; a closed client starts no connect
+    if s.closed ∧ s.conns = 0 then some s else none
   | .channelsReached =>
     if s.maxConns = 0 then some s else
+    if s.closed then some s else
     if s.conns < s.maxConns then some (startDial s) else some s
   | .dialSuccess =>
     match s.dial with
